@@ -282,7 +282,16 @@ def check_percentage(E, result, ref_matched, total, consumed, oblig):
 
 
 def job_recheck(E, prop, version, shape, P, K, dmg, source="ref", cpath="root", trailing_pad=False,
-                v2_single_length=True, tname=None, aligned=False, _mutants=None):
+                v2_single_length=True, tname=None, aligned=False, dup=False, _mutants=None, _equal_sizes=False):
+    if dup:
+        # every file of the tree has the same bytes (identical copies): one content identity, equal sizes
+        saved = cr.fid_of
+        cr.fid_of = lambda shape_, rel, names=None: ("f", 0)
+        try:
+            return job_recheck(E, prop, version, shape, P, K, dmg, source, cpath, trailing_pad, v2_single_length, tname, aligned,
+                               dup=False, _mutants=_mutants, _equal_sizes=True)
+        finally:
+            cr.fid_of = saved
     rels = SHAPES[shape]
     fs = AFS(order="reversed")
     sizes = {}
@@ -293,6 +302,9 @@ def job_recheck(E, prop, version, shape, P, K, dmg, source="ref", cpath="root", 
     for s in sizes.values():
         total = total + s
     E.assume(total > 0)
+    if _equal_sizes:
+        for r in rels[1:]:
+            E.assume(sizes[r] == sizes[rels[0]])
     w = World(fs, mutants=_mutants)
     if source == "ref":
         disk_ext, damaged = apply_damage(E, fs, shape, sizes, dmg)
@@ -382,7 +394,7 @@ def conc_world(params, model, workdir, seed):
     rels = SHAPES[shape]
     dmg = params["dmg"]
     sizes = cr.concrete_sizes(shape, model)
-    data = {r: refconc.content(("f", i), sizes[r], seed) for i, r in enumerate(rels)}
+    data = {r: refconc.content(("f", 0 if params.get("dup") else i), sizes[r], seed) for i, r in enumerate(rels)}
     disk = {}
     for i, r in enumerate(rels):
         kind = dmg[i] if i < len(dmg) else "intact"
